@@ -25,15 +25,11 @@ Facts are tracked only
 """
 import copy
 
-VARIANT_OF_AGG = {
-    "std::result::Result::Ok": "Ok",
-    "std::result::Result::Err": "Err",
-    "std::option::Option::Some": "Some",
-    "std::option::Option::None": "None",
-    "std::ops::ControlFlow::Continue": "Continue",
-    "std::ops::ControlFlow::Break": "Break",
-}
-BRANCH_OF = {"Ok": "Continue", "Err": "Break", "Some": "Continue", "None": "Break"}
+R_OK, R_ERR = "std::result::Result::Ok", "std::result::Result::Err"
+O_SOME, O_NONE = "std::option::Option::Some", "std::option::Option::None"
+CF_CONT, CF_BREAK = "std::ops::ControlFlow::Continue", "std::ops::ControlFlow::Break"
+# facts about enums are "<adt path>::<variant>" strings: any enum built in place is tracked
+BRANCH_OF = {R_OK: CF_CONT, R_ERR: CF_BREAK, O_SOME: CF_CONT, O_NONE: CF_BREAK}
 MAX_FACTOR = 3
 
 
@@ -232,9 +228,8 @@ def _transfer_stmt(st, e, ok_locals):
     if L not in ok_locals:
         return
     if k == "aggregate" and rv.get("agg") == "adt":
-        v = VARIANT_OF_AGG.get("%s::%s" % (rv.get("adt"), rv.get("variant")))
-        if v:
-            e[L] = v
+        if rv.get("adt") and rv.get("variant") is not None:
+            e[L] = "%s::%s" % (rv.get("adt"), rv.get("variant"))
     elif k == "use" and _plain_local(rv["op"]):
         M = rv["op"]["pl"]["l"]
         if M in e:
@@ -249,8 +244,48 @@ def _transfer_stmt(st, e, ok_locals):
         f = e.get(rv["pl"]["l"])
         if isinstance(f, str):
             for vv, nm in rv["variants"]:
-                if nm == f:
+                if "%s::%s" % (rv.get("adt"), nm) == f:
                     e[("d", L)] = vv
+
+
+def elide_drop_flags(fj, taken):
+    """Drop elaboration guards conditional drops with boolean flags:
+         switchInt(flag) -> [0: next, otherwise: d];   d: drop(x) -> next
+    No rule gives `drop` an effect, so the test is noise that hides the real
+    shape of the paths (both edges reach the same continuation): take the drop
+    edge unconditionally.  Only for locals that are compiler flags: bool,
+    unnamed, address never taken, assigned nothing but constants."""
+    body = fj["body"]
+    blocks = body["blocks"]
+    flags = set()
+    for i, l in enumerate(body["locals"]):
+        if i > body["arg_count"] and l["ty"].get("k") == "bool" and "name" not in l and i not in taken:
+            flags.add(i)
+    for b in blocks:
+        for st in b["stmts"]:
+            if st.get("k") == "assign" and st["pl"]["l"] in flags:
+                if st["pl"]["p"] or st["rv"].get("rv") != "use" or _const_int(st["rv"]["op"]) is None:
+                    flags.discard(st["pl"]["l"])
+        t = b["term"]
+        d = t.get("dest") if t["k"] in ("call", "tailcall") else None
+        if d is not None and d["l"] in flags:
+            flags.discard(d["l"])
+    n = 0
+    for b in blocks:
+        t = b["term"]
+        if t["k"] != "switch" or b["cleanup"] or not _plain_local(t["discr"]) or t["discr"]["pl"]["l"] not in flags:
+            continue
+        tg = _succ(t)
+        if len(tg) != 2:
+            continue
+        for a, o in ((tg[0], tg[1]), (tg[1], tg[0])):
+            ba = blocks[a]
+            only_flags = all(st.get("k") == "assign" and st["pl"]["l"] in flags and not st["pl"]["p"] for st in ba["stmts"])
+            if only_flags and ba["term"]["k"] == "drop" and ba["term"].get("target") == o:
+                b["term"] = {"k": "goto", "target": a, "sp": t.get("sp"), "exp": True, "dropflag": True}
+                n += 1
+                break
+    return n
 
 
 def thread_fn(fj):
@@ -261,6 +296,7 @@ def thread_fn(fj):
     if n == 0:
         return 0
     taken = _address_taken(blocks)
+    elide_drop_flags(fj, taken)
     ok_locals = {i for i in range(len(body["locals"])) if i not in taken and i > body["arg_count"]}
     live_in = _liveness(blocks)
 
@@ -306,9 +342,9 @@ def thread_fn(fj):
                 elif v.get("name") == "from_residual" and (v.get("trait") or "").endswith("FromResidual"):
                     st_ = (v.get("self_ty") or {}).get("s", "")
                     if st_.startswith("std::result::Result<"):
-                        e[L] = "Err"
+                        e[L] = R_ERR
                     elif st_.startswith("std::option::Option<"):
-                        e[L] = "None"
+                        e[L] = O_NONE
         elif k == "switch":
             dop = t["discr"]
             val = None
